@@ -10,6 +10,7 @@ Composites (`BB.Caching.compGet` …; backends `src` = slow/secondary, `sink` = 
     c.get <k> | c.getc <k>        -> ok <v> | err <code> <id>
     c.cput <k> <v> | c.fput <k> <v>   readcaching / readfallback Put -> ok | err <code> <id>
     c.cfm <k>… | c.ffm <k>…       readcaching / readfallback FindMissing -> ok <k>… | err <code> <id>
+    c.repl <k>…                   the replicator's ReplicateMultiple on its own -> ok | err <code> <id>
     c.dump <n>                    contents (keys < n), calls, remaining script length of both backends
 
 Deduplicating replicator (`dstep`, `dSettle`):
@@ -169,6 +170,10 @@ def stepC (s : S) : List String → S × String
   | "c.ffm" :: ks =>
     match allNats? ks with
     | some ks => let r := fallbackFindMissing s.repl s.pair ks; ({ s with pair := r.1 }, showMissing r.2)
+    | none => (s, "bad-op")
+  | "c.repl" :: ks =>
+    match allNats? ks with
+    | some ks => let r := replMultiple s.repl s.pair ks; ({ s with pair := r.1 }, showOpt r.2)
     | none => (s, "bad-op")
   | ["c.dump", n] =>
     match nat? n with
